@@ -9,8 +9,9 @@
 (* It is NOT a transcription of the decoder.  Where the decoder's author   *)
 (* documents a deliberate restriction, it appears here as a *named*        *)
 (* operator (Plausible40/50/60, GnssBaroZeroUnreported,                    *)
-(* Unsigned16Deviation, GnssHeightCodedAsBaro) that removes the obligation *)
-(* instead of encoding the decoder's behaviour.                            *)
+(* Unsigned16Deviation, GnssHeightCodedAsBaro, AllOnesRateUnreported50,    *)
+(* AllOnesVRateZero60) that removes the obligation instead of encoding the *)
+(* decoder's behaviour.                                                    *)
 (*                                                                         *)
 (* Vocabulary.  A *class* k names a frame layout; c is the record of its   *)
 (* codes.  Fields(k,c) is the frame as a list of <<width, value>> (MSB     *)
@@ -246,6 +247,13 @@ Rate32(c) == TwosC(c.trsg, c.rate, 9)              \* unit 1/32 degree per secon
 (* Named deviation (the author's plausibility filter on Comm-B registers): *)
 (* the decoder rejects the whole register outside this envelope; only      *)
 (* values inside it carry an obligation.                                   *)
+(* Named deviation: the decoder (following pyModeS) reads an all-ones 9-bit *)
+(* value field of the track angle rate as 'not available' whatever the     *)
+(* sign bit (the standard has no such sentinel: sign 1 is -1/32 deg/s,     *)
+(* sign 0 is 15.97 deg/s).  The decoder's sentinel carries no obligation.  *)
+AllOnes9(m) == m = 511
+AllOnesRateUnreported50 == TRUE
+RateObliged50(c) == c.trs = 1 /\ ~(AllOnesRateUnreported50 /\ AllOnes9(c.rate))
 Plausible50(c) ==
   /\ c.rs = 1 => Abs(Roll256(c)) <= 50 * 256
   /\ c.gss = 1 => 2 * c.gs <= 600
@@ -261,6 +269,14 @@ Plausible50(c) ==
 (* inertial vertical velocity.                                             *)
 (* ----------------------------------------------------------------------- *)
 VRate60Fpm(sg, m) == 32 * TwosC(sg, m, 9)
+(* Named deviation: the decoder (following pyModeS, "all zeros or all       *)
+(* ones") reports 0 ft/min for an all-ones value field of either vertical  *)
+(* rate.  With sign 0 that code (16352 ft/min) is outside Plausible60       *)
+(* anyway; with sign 1 it is the code of -32 ft/min, so the report is one  *)
+(* LSB off the nominal value.  Documented in the source as deliberate; it  *)
+(* carries no obligation here.                                             *)
+AllOnesVRateZero60 == TRUE
+VRateObliged60(st, m) == st = 1 /\ ~(AllOnesVRateZero60 /\ AllOnes9(m))
 Plausible60(c) ==
   /\ c.iss = 1 => c.ias >= 1 /\ c.ias <= 500
   /\ c.mas = 1 => c.mach >= 1 /\ c.mach <= 250            \* 0 < Mach <= 1
@@ -356,6 +372,7 @@ ObsVRate == <<<<"vertical_rate", <<"vertical_rate">>, "num", 100>>,
 ObsHdr(c) == IF c.df \in {4, 20} THEN <<"altitude", <<"altitude">>, "num", 1>>
              ELSE <<"squawk", <<"squawk">>, "str", 1>>
 GsScale(st) == IF st = 2 THEN 2 ELSE 10
+Obs05 == <<<<"bds05", <<"bds05">>, "has", 1>>, <<"alt05", <<"bds05", "altitude">>, "num", 1>>>>
 
 Obs(k, c) ==
   CASE k = "id08" -> <<ObsIcao, <<"callsign", <<"callsign">>, "str", 1>>>>
@@ -374,25 +391,24 @@ Obs(k, c) ==
     [] k = "ts62" -> <<ObsIcao, <<"selected_altitude", <<"selected_altitude">>, "num", 100>>,
                        <<"barometric_setting", <<"barometric_setting">>, "num", 500>>,
                        <<"selected_heading", <<"selected_heading">>, "num", 6400>>>>
-    [] k = "cs20" -> <<ObsIcao, ObsHdr(c), <<"callsign", <<"bds20", "callsign">>, "str", 1>>>>
+    [] k = "cs20" -> <<ObsIcao, ObsHdr(c), <<"callsign", <<"bds20", "callsign">>, "str", 1>>>> \o Obs05
     [] k = "vi40" -> <<ObsIcao, ObsHdr(c), <<"bds40", <<"bds40">>, "has", 1>>,
                        <<"selected_mcp", <<"bds40", "selected_mcp">>, "num", 100>>,
                        <<"selected_fms", <<"bds40", "selected_fms">>, "num", 100>>,
-                       <<"barometric_setting", <<"bds40", "barometric_setting">>, "num", 1000>>>>
+                       <<"barometric_setting", <<"bds40", "barometric_setting">>, "num", 1000>>>> \o Obs05
     [] k = "tt50" -> <<ObsIcao, ObsHdr(c), <<"bds50", <<"bds50">>, "has", 1>>,
                        <<"roll", <<"bds50", "roll">>, "num", 25600>>,
                        <<"track", <<"bds50", "track">>, "num", 25600>>,
                        <<"groundspeed", <<"bds50", "groundspeed">>, "num", 100>>,
                        <<"track_rate", <<"bds50", "track_rate">>, "num", 3200>>,
-                       <<"TAS", <<"bds50", "TAS">>, "num", 100>>>>
+                       <<"TAS", <<"bds50", "TAS">>, "num", 100>>>> \o Obs05
     [] k = "hs60" -> <<ObsIcao, ObsHdr(c), <<"bds60", <<"bds60">>, "has", 1>>,
                        <<"heading", <<"bds60", "heading">>, "num", 25600>>,
                        <<"IAS", <<"bds60", "IAS">>, "num", 100>>,
                        <<"Mach", <<"bds60", "Mach">>, "num", 25000>>,
                        <<"vrate_barometric", <<"bds60", "vrate_barometric">>, "num", 100>>,
-                       <<"vrate_inertial", <<"bds60", "vrate_inertial">>, "num", 100>>>>
-    [] k = "l05" -> <<ObsIcao, ObsHdr(c), <<"bds05", <<"bds05">>, "has", 1>>,
-                      <<"alt05", <<"bds05", "altitude">>, "num", 1>>>>
+                       <<"vrate_inertial", <<"bds60", "vrate_inertial">>, "num", 100>>>> \o Obs05
+    [] k = "l05" -> <<ObsIcao, ObsHdr(c)>> \o Obs05
     [] k = "surv" -> <<ObsIcao, ObsHdr(c)>>
     [] k = "aa11" -> <<ObsIcao>>
     [] k \in {"ac00", "ac16"} -> <<ObsIcao, <<"altitude", <<"altitude">>, "num", 1>>>>
@@ -425,22 +441,22 @@ Applicable(k, c) ==
     [] k = "st61" -> <<"icao24", "squawk">>
     [] k = "ts62" -> <<"icao24">> \o Sel(SelAlt62Meaningful(c.alt), "selalt62")
                      \o Sel(Qnh62Meaningful(c.qnh), "qnh62") \o Sel(c.hs = 1, "selhdg62")
-    [] k = "cs20" -> <<"icao24">> \o AppHdr(c) \o Sel(AllValid(c.ch), "callsign")
-    [] k = "vi40" -> <<"icao24">> \o AppHdr(c)
+    [] k = "cs20" -> <<"icao24", "label05">> \o AppHdr(c) \o Sel(AllValid(c.ch), "callsign")
+    [] k = "vi40" -> <<"icao24", "label05">> \o AppHdr(c)
                      \o (IF Plausible40(c)
                          THEN Sel(c.ms = 1 /\ SelAlt40Meaningful(c.malt), "mcp40")
                               \o Sel(c.fst = 1 /\ SelAlt40Meaningful(c.falt), "fms40")
                               \o Sel(c.bs = 1, "qnh40")
                          ELSE <<>>)
-    [] k = "tt50" -> <<"icao24">> \o AppHdr(c)
+    [] k = "tt50" -> <<"icao24", "label05">> \o AppHdr(c)
                      \o (IF Plausible50(c)
                          THEN Sel(c.rs = 1, "roll50") \o Sel(c.ts = 1, "trk50") \o Sel(c.gss = 1, "gs50")
-                              \o Sel(c.trs = 1, "rate50") \o Sel(c.tass = 1, "tas50")
+                              \o Sel(RateObliged50(c), "rate50") \o Sel(c.tass = 1, "tas50")
                          ELSE <<>>)
-    [] k = "hs60" -> <<"icao24">> \o AppHdr(c)
+    [] k = "hs60" -> <<"icao24", "label05">> \o AppHdr(c)
                      \o (IF Plausible60(c)
                          THEN Sel(c.hs = 1, "hdg60") \o Sel(c.iss = 1, "ias60") \o Sel(c.mas = 1, "mach60")
-                              \o Sel(c.bs = 1, "baro60") \o Sel(c.vs = 1, "ivv60")
+                              \o Sel(VRateObliged60(c.bs, c.baro), "baro60") \o Sel(VRateObliged60(c.vs, c.ivv), "ivv60")
                          ELSE <<>>)
     [] k = "l05" -> <<"icao24">> \o AppHdr(c) \o <<"label05">>
     [] k = "surv" -> <<"icao24">> \o AppHdr(c)
@@ -449,11 +465,26 @@ Applicable(k, c) ==
 
 (* A DF20 payload may be labelled BDS 0,5 only when the altitude it would  *)
 (* carry is available and equals the altitude of the surveillance header;  *)
-(* a labelled payload reports that altitude.                               *)
-Label05Allowed(c) ==
-  /\ c.tc \in (9..18) \cup (20..22)
-  /\ Alt12Meaningful(c.alt) /\ Alt13Meaningful(c.ac)
-  /\ AC12Ft(c.alt) = AC13Ft(c.ac)
+(* a labelled payload reports that altitude.  The clause holds for *every* *)
+(* DF20 payload, whatever register it was built as: the type code and the  *)
+(* 12-bit altitude are read off the assembled frame (MB = bits 33..88: TC  *)
+(* bits 33..37, altitude bits 41..52).                                     *)
+FieldBits(w, x) == [j \in 1..w |-> (x \div (2 ^ (w - j))) % 2]
+RECURSIVE FlatBits(_, _)
+FlatBits(f, i) == IF i > Len(f) THEN <<>> ELSE FieldBits(f[i][1], f[i][2]) \o FlatBits(f, i + 1)
+RECURSIVE BitsVal(_, _, _, _)
+BitsVal(b, from, to, acc) == IF from > to THEN acc ELSE BitsVal(b, from + 1, to, 2 * acc + b[from])
+MBTypeCode(k, c) == BitsVal(FlatBits(Fields(k, c), 1), 33, 37, 0)
+MBAlt12(k, c) == BitsVal(FlatBits(Fields(k, c), 1), 41, 52, 0)
+Label05AllowedAt(tc, alt, ac) ==
+  /\ tc \in (9..18) \cup (20..22)
+  /\ Alt12Meaningful(alt) /\ Alt13Meaningful(ac)
+  /\ AC12Ft(alt) = AC13Ft(ac)
+Label05Allowed(c) == Label05AllowedAt(c.tc, c.alt, c.ac)        \* class l05: the codes as built
+Label05Ok(k, c, v) ==
+  (c.df = 20 /\ v.bds05[2] = 1) =>             \* the property speaks of DF20 only
+    /\ Label05AllowedAt(MBTypeCode(k, c), MBAlt12(k, c), c.ac)
+    /\ Alt12Ok(v.alt05, MBAlt12(k, c))
 
 Holds(k, c, v, f) ==
   CASE f = "icao24" -> AddressIs(v.icao24, c.aa)
@@ -493,7 +524,7 @@ Holds(k, c, v, f) ==
     [] f = "mach60" -> Near(v.Mach, c.mach, 1)               \* unit 0.004
     [] f = "baro60" -> Near(v.vrate_barometric, VRate60Fpm(c.bsg, c.baro), 32)
     [] f = "ivv60" -> Near(v.vrate_inertial, VRate60Fpm(c.vsg, c.ivv), 32)
-    [] f = "label05" -> v.bds05[2] = 1 => (Label05Allowed(c) /\ Alt12Ok(v.alt05, c.alt))
+    [] f = "label05" -> Label05Ok(k, c, v)
 
 Failing(k, c, v) == SelectSeq(Applicable(k, c), LAMBDA f : ~Holds(k, c, v, f))
 =============================================================================
